@@ -42,12 +42,14 @@ FLOORS = {"quick": {"wrappers_with_two_components_called": 6000,
                     "lazy_wrappers_consumed": 6000,
                     "distinct_nontrivial": 800, "requests_checked": 80000, "clone_with_list": 2000,
                     "requests_through_original_after_derivation": 15000, "caller_objects_checked": 30000,
-                    "response_adapter_orders_checked": 80000},
+                    "response_adapter_orders_checked": 80000, "requests_with_an_empty_path_segment": 2000,
+                    "wrappers_of_a_derived_caller_class_called": 6000},
           "thorough": {"wrappers_with_two_components_called": 24000,
                        "lazy_wrappers_consumed": 24000,
                        "distinct_nontrivial": 25000, "requests_checked": 1200000, "clone_with_list": 30000,
                        "requests_through_original_after_derivation": 300000, "caller_objects_checked": 400000,
-                       "response_adapter_orders_checked": 1200000}}
+                       "response_adapter_orders_checked": 1200000, "requests_with_an_empty_path_segment": 30000,
+                       "wrappers_of_a_derived_caller_class_called": 24000}}
 LEVEL_TEXT = ("Runtime exploration over histories of requests and derivations on shared connection objects; every "
               "request that reaches the (fake) opener is compared with the request the harness derives from the "
               "chain description, and caller-owned objects with their deep copies.")
@@ -221,6 +223,14 @@ class EqPrefix(H.RequestAdapterAddPathPrefix):
 
     def __hash__(self):
         return hash(self.vf_prefix)
+
+
+class M3(M):
+    """a caller class that declares anew a wrapper it has inherited - for another component, with another path"""
+
+    @method_http(None, 'cz')
+    def call_a(self, **kw):
+        return self.get_conn().post("/m/a3", **kw)
 
 
 class M2(MA, MB):
@@ -427,7 +437,10 @@ def _run_history(ctx, rng, case):
 
         def do(c, lay, tag):
             verb = rng.choice(['get', 'post', 'put', 'delete', 'patch'])
-            path = rng.choice(["/p", "p/q", "", "/a b"])
+            path = rng.choice(["/p", "p/q", "", "/a b", "//bucket/key", "/p//q/"] if rng.random() < 0.3 else
+                              ["/p", "p/q", "", "/a b"])
+            if "//" in path:
+                ctx.count("requests_with_an_empty_path_segment")
             params = rng.choice([None, {}, {'a': 1, 'b': 'x y'}, {'q': 'é&='},
                                  [('tag', 'red'), ('tag', 'blue'), ('page', 1)], (('k', 'v'), ('k', 'v'))])
             data = rng.choice([None, "txt", b"\x00b", {'k': [1, 2]}, [1, "é"], "", 0])
@@ -569,6 +582,21 @@ def _run_history(ctx, rng, case):
             check_req(op.reqs[-1], expected(address, ml + [[('prefix', prefix)]], "/m/x", "GET", None, None, None),
                       tag + " call_multi")
             ctx.count("wrappers_with_two_components_called")
+        # a wrapper declared anew in a derived caller class is the one that runs, with its own component
+        m3 = M3(conn if isinstance(conn, H.HttpConn) else H.HttpConn(conn))
+        for name, suffix, path, method in (("call_a", [[('prefix', '/cmpZ')]], "/m/a3", "POST"),
+                                           ("call_b", [], "m/b", "GET"),
+                                           ("call_same", [[('prefix', '/cmpA')]], "/m/s", "POST")):
+            del log[:]
+            steps.append(["derived caller class", name])
+            try:
+                getattr(m3, name)()
+            except Exception as err:
+                fail("method-caller-raises", {"step": "derived caller class", "method": name,
+                                              "type": type(err).__name__, "msg": str(err)[:150]})
+            check_req(op.reqs[-1], expected(address, ml + suffix, path, method, None, None, None),
+                      "derived caller class " + name)
+            ctx.count("wrappers_of_a_derived_caller_class_called")
         for mc, lay, tag in [(cl, cl_layers, "clone " + how), (m, ml, "caller after clone"),
                              (cl, cl_layers, "clone again")]:
             for name, suffix, path, method in (("call_a", [[('prefix', '/cmpA')]], "/m/a", "POST"),
